@@ -1880,6 +1880,44 @@ C08_T(strndup, "n below/equal/above length, SIZE_MAX, unterminated arrays of exa
 C08_T(strlwr, "letters, bytes next to the letter ranges, bytes >= 0x80; non-trivial = at least one character changes");
 C08_T(strupr, "as strlwr; non-trivial = at least one character changes");
 VP_TARGET("all", f_all, "first choice selects one of the 31 functions, then that function's generator and rule");
+// Soak: one of the span functions is called once with one set and then 65534..131071 more times on the same string with
+// another set — a function that keeps a table across calls (stamps, generations, lazily cleared marks) must still
+// answer every single call like the host.
+void f_span_soak(Src &s, Case &c)
+{
+    int which = (int)s.below(3);
+    static const char *const names[3] = {"strspn", "strcspn", "strpbrk"};
+    int style = (int)s.pick({FULL, SPECIAL});
+    Bytes str = gen(s, (size_t)s.range(1, 12), style, true);
+    Bytes set_a = gen(s, (size_t)s.range(1, 6), style, true), set_b = gen(s, (size_t)s.range(0, 4), style, true);
+    // make the first set contain a character of the string and the second one not contain it (the interesting stale mark)
+    if (s.coin())
+    {
+        set_a.push_back(str[s.below(str.size())]);
+        Bytes nb;
+        for (uint8_t b : set_b)
+            if (b != set_a.back())
+                nb.push_back(b);
+        set_b = nb;
+    }
+    size_t reps = (size_t)s.pick<uint32_t>({65534, 65535, 65536, 65537, 131071});
+    c.log("%s: once with set %s, then %zu times with set %s on %s", names[which], sx(set_a).c_str(), reps, sx(set_b).c_str(), sx(str).c_str());
+    c.label(names[which]);
+    c.nontrivial = true;
+    Bytes sz = cstr(str), az = cstr(set_a), bz = cstr(set_b);
+    Op S(sz, 0), A(az, 0), B(bz, 0);
+    span_core(which, S, A);
+    long want = span_core(which, S, B);
+    for (size_t i = 1; i < reps; i++)
+    {
+        long g = which == 0 ? (long)igc_strspn(S.t.p, B.t.p) : which == 1 ? (long)igc_strcspn(S.t.p, B.t.p) : poff(igc_strpbrk(S.t.p, B.t.p), S.t.p);
+        if (g != want)
+            fail(names[which], "ret_after_many_calls",
+                 fmt("call %zu with the same arguments gives %ld, the host and the earlier calls %ld; s=%s set=%s (first call used set %s)", i + 2, g, want, sx(S.d).c_str(),
+                     sx(B.d).c_str(), sx(A.d).c_str()));
+    }
+}
+
 void f_all_long(Src &s, Case &c)
 {
     struct G
@@ -1890,6 +1928,9 @@ void f_all_long(Src &s, Case &c)
     f_all(s, c);
     c.label("long_operands");
 }
+VP_TARGET("span_soak", f_span_soak,
+          "strspn / strcspn / strpbrk: one call with a first set, then 65534 .. 131071 calls on the same string with a second set (half of the time the first set holds a character of "
+          "the string that the second lacks): every call must answer like the host");
 VP_TARGET("all_long", f_all_long,
           "the 31 functions with the length schedule moved to 250..262 / 0..300 / 508..520 / 0..1100 (operands longer than any one-byte "
           "counter, word loops of hundreds of iterations); same generators and rules otherwise");
